@@ -946,6 +946,12 @@ class Stage2(productmd.common.MetadataBase):
             if self.mainimage.startswith("/"):
                 raise ValueError("Only relative paths are allowed for images: %s" % self.mainimage)
 
+    def _validate_instimage(self):
+        if self.instimage:
+            self._assert_type("instimage", list(six.string_types))
+            if self.instimage.startswith("/"):
+                raise ValueError("Only relative paths are allowed for images: %s" % self.instimage)
+
     def _validate_platforms(self):
         pass
 
